@@ -16,6 +16,11 @@ if s.count(old) != 1:
     print(f"pattern occurs {s.count(old)} times", file=sys.stderr)
     sys.exit(3)
 open(p, "w").write(s.replace(old, new))
+import os, shutil, tempfile
+keep = tempfile.mkdtemp(prefix="verif-mut-")
+for sub in ("evidence", "replays"):
+    if os.path.isdir("/verif/" + sub):
+        shutil.copytree("/verif/" + sub, keep + "/" + sub)
 try:
     if suite:
         r = subprocess.run("cd /repo && timeout 600 /venv/bin/python -m pytest -q -x -p no:cacheprovider --timeout=300 2>&1 | tail -2",
@@ -30,3 +35,9 @@ try:
             print(r.stderr[-1500:])
 finally:
     subprocess.run(["git", "-C", "/repo", "checkout", "--", f], check=True)
+    # evidence / replay files written while the mutant was applied describe the mutant, not the tree
+    for sub in ("evidence", "replays"):
+        shutil.rmtree("/verif/" + sub, ignore_errors=True)
+        if os.path.isdir(keep + "/" + sub):
+            shutil.copytree(keep + "/" + sub, "/verif/" + sub)
+    shutil.rmtree(keep, ignore_errors=True)
